@@ -599,36 +599,61 @@ pub fn name_driver(data: &[u8], _ctx: &[Vec<u8>], _a: [u32; 3], w: &mut Walker) 
     };
     let sd = name.string_data();
     w.u(sd.len() as u64);
-    let lim = data.len() as u64 + 16;
-    for rec in name.name_record().iter().take(512) {
+    // every record (bounded by the horizon only); the iteration bound of each string comes from its own byte
+    // length: no encoding (UTF-16BE, MacRoman) yields more chars than bytes
+    let mut string_obs = |s: read_fonts::tables::name::NameString, byte_len: u64, w: &mut Walker| {
+        let lim = byte_len + 8;
+        let mut n = 0u64;
+        let mut over = false;
+        for c in s.chars() {
+            n += 1;
+            w.h.u64(c as u64);
+            if n > lim {
+                report_overrun("NameString::chars yields more chars than the string has bytes", n);
+                over = true;
+                break;
+            }
+        }
+        w.calls += n;
+        w.nodes += n / 4;
+        w.u(n);
+        // IntoIterator is a separate entry point to the same iterator
+        let mut k = 0u64;
+        for _c in s {
+            k += 1;
+            if k > lim {
+                report_overrun("NameString::into_iter yields more chars than the string has bytes", k);
+                over = true;
+                break;
+            }
+        }
+        w.u(k);
+        if !over {
+            // Display / Debug / to_string drive the same iterator without any bound: only when it terminates
+            let disp = s.to_string();
+            w.u(disp.len() as u64);
+            let dbg = format!("{s:?}");
+            w.u(dbg.len() as u64);
+        }
+    };
+    for rec in name.name_record().iter() {
         if !w.step() {
             break;
         }
         w.b(rec.is_unicode());
+        w.u(((rec.platform_id() as u64) << 32) | ((rec.encoding_id() as u64) << 16) | rec.length() as u64);
         match rec.string(sd) {
-            Ok(s) => {
-                let mut n = 0u64;
-                for c in s.chars() {
-                    n += 1;
-                    w.h.u64(c as u64);
-                    if n > lim {
-                        report_overrun("NameString::chars yields more chars than the table has bytes", n);
-                        break;
-                    }
-                }
-                w.calls += n;
-                w.nodes += n;
-                w.u(n);
-                let disp = s.to_string();
-                w.u(disp.len() as u64);
-            }
+            Ok(s) => string_obs(s, rec.length() as u64, w),
             Err(e) => rerr(w, &e),
         }
     }
     if let Some(tags) = name.lang_tag_record() {
-        for rec in tags.iter().take(64) {
+        for rec in tags.iter() {
+            if !w.step() {
+                break;
+            }
             match rec.lang_tag(sd) {
-                Ok(s) => w.u(s.chars().take(70_000).count() as u64),
+                Ok(s) => string_obs(s, rec.length() as u64, w),
                 Err(e) => rerr(w, &e),
             }
         }
